@@ -159,6 +159,15 @@ def main(tier, seed):
                 rep.violation("%s fit/predict with distance %r changed the caller's array(s) %r" % (kind, metric, ch), desc, key="decorator:inplace")
             continue
         try:
+            # an unrelated computation in between, as in a real session: buffers of the sizes the library uses are
+            # allocated, filled with large values and released (numpy recycles small blocks), and another model is
+            # trained on far-away data. A result that reads uninitialised scratch memory changes; a pure one does not.
+            for sz in range(1, 12):
+                junk = np.full(sz, 1e300 if sz % 2 else -1e300); del junk
+            other = UnsupervisedOPF(min_k=2, max_k=2, distance="euclidean")
+            other.fit(X + 1000.0, Y); other.predict(Xq + 5000.0)
+            for sz in range(1, 12):
+                junk = np.full(sz, 7e250); del junk
             r2 = run()
         except Exception:
             continue
